@@ -105,7 +105,14 @@ func connLost(f sockfake.Fault) bool {
 
 func socketScenario(sc scen) h.Scenario {
 	name := sc.name("socket")
-	return h.Scenario{Name: name, Quick: sc.quick, Thorough: sc.thorough, AllowHang: true, Run: func(ch vs.Chooser, trace bool) (*vs.Sched, h.Outcome) {
+	var maxExecs int64
+	if sc.callers >= 2 && !sc.abort {
+		maxExecs = 450000 // bound 1 of the two-caller scenarios must complete in the quick tier (the register-after-close hang needs it)
+		if os.Getenv("VERIF_TIER") == "thorough" {
+			maxExecs = 0
+		}
+	}
+	return h.Scenario{Name: name, Quick: sc.quick, Thorough: sc.thorough, AllowHang: true, MaxExecs: maxExecs, Run: func(ch vs.Chooser, trace bool) (*vs.Sched, h.Outcome) {
 		res := make([]callRes, sc.callers)
 		var follow callRes
 		followFails := 0
